@@ -33,6 +33,7 @@ MF = fp.MPFixedContext(-3, fp.RM.RNA)
 F32P = fp.FP32.with_params(rm=fp.RM.RTP)
 K2 = 2
 K3 = 3
+KZ = -0.0
 ctx = fp.IEEEContext(5, 16)
 ctx1 = fp.MPFloatContext(6)
 '''
@@ -370,7 +371,7 @@ class Gen:
         new = _Scope(sc)
         v = self.fresh('v')
         self.features.add('free_var')
-        self.emit(ind, f'{v} = ({self.rng.choice(["K2", "K3"])} + {self.real(sc, 1)})')
+        self.emit(ind, f'{v} = ({self.rng.choice(["K2", "K3", "KZ"])} {self.rng.choice(["+", "*", "*"])} {self.real(sc, 1)})')
         new.vars[v] = 'R'
         return new
 
